@@ -70,7 +70,10 @@ func main() {
 			if len(c.Pool) == 0 {
 				continue
 			}
-			if i%3 == 2 {
+			if i == 7 || i == 16 {
+				c.Methods = hist.MethodPool
+				hist.GenVerbStory(r, &c.Case)
+			} else if i%3 == 2 {
 				hist.GenStory(r, &c.Case)
 			} else {
 				hist.GenOps(r, &c.Case, 30+r.IntN(50), r.IntN(3), false)
@@ -121,7 +124,8 @@ func same(a, b outcome) bool {
 }
 
 func probeSet(r *rand.Rand, pool, methods []string) []route.Req {
-	var out []route.Req
+	// the server-wide OPTIONS request depends on which verbs have routes, whatever way the others lost theirs
+	out := []route.Req{{Method: "OPTIONS", Path: "*"}}
 	ms := append(append([]string(nil), methods...), "OPTIONS", "TRACE")
 	for _, p := range pool {
 		for k := 0; k < 3; k++ {
